@@ -291,8 +291,8 @@ impl Check for C11Check {
         // another process
         if scn.child && viol.is_empty() {
             if let Some((d0, s0, _)) = &first {
-                let dir = simcore::driver::work_dir();
-                let path = dir.join(format!("c11-{}-{:x}.json", std::process::id(), scn.seed));
+                let scratch = crate::procsim::Scratch::new("c11");
+                let path = scratch.dir.join(format!("c11-{}-{:x}.json", std::process::id(), scn.seed));
                 std::fs::write(&path, scenario.to_string()).expect("write child scenario");
                 let out = std::process::Command::new(exe_for_mode(&scn.mode)).arg("c11digest").arg(&path).output().expect("spawn child");
                 let _ = std::fs::remove_file(&path);
